@@ -4,6 +4,11 @@ V = os.path.dirname(os.path.dirname(os.path.abspath(__file__)))
 props = [json.loads(l) for l in open(os.path.join(V, "properties.jsonl"))]
 
 CLAIMED = {
+    "C08": dict(
+        text="Coq theorems about the model of SimulatedOrder.profit / Market.cleared for every stake, price, result, dead-heat count, divisor and every sign-symmetric tie-break: a back and a lay with identical fills have exactly opposite profit (line markets: whenever the struck line differs from the result; the equal case is REFUTED by theorem - known finding F-C08-1: both lose); zero for unmatched orders and removed runners; stake x (price-1) / minus the stake; the dead-heat reduction; a back never loses more than its stake; the cleared summary is the sum over the client's matched orders with commission >= 0, zero unless the net is a win and equal to round(profit x rate) otherwise. Tie to code: SimulatedOrder.profit on real orders (8k-40k cases incl. each-way, line, dead heats) vs the model (both tie-breaks) AND an independent exact-rational calculator; Blotter.process_closed_market (results/terms copied to every order, dead-heat count) and Market.cleared on real markets with 1-2 clients.",
+        note="Trusted: Coq kernel + vm_compute; harness/impl/c08.py; each-way dead heats are outside (property and code say so); the 2dp average matched price is the price the exchange reports. Print Assumptions: closed under the global context.",
+        technique="Coq proof (case analysis + rounding lemmas, nia) + differential correspondence evaluated in Coq + independent rational calculator",
+        ref="DESIGN.md §5 C08"),
     "C07": dict(
         text="Coq theorems about the model of the simulation loop for every queue, state and update: after the pending phase of an update of market m exactly the due packages of m have left the queue (executed only if the update is more than latency (+ bet delay for place/replace) after the request; everything else still queued in order, also while other markets of the event are updated); the pending phase is a function of (time, market, state before) only - the triggering book is not an argument (no look-ahead); a placement is acknowledged with the executing update's publish time; pending orders are invisible to the matcher while cancelling/updating/replacing ones are still matched (statuses regenerated from source). The strict '>' threshold is PROVED equal to the real float comparison tabulated from the source for 4 kinds x bet delay 0..12. 'No recorded timestamp precedes the time it could have happened' is REFUTED for arrival fragments by a vm_compute witness (known finding F-C07-1). Tie to code: timing families (spacings at delay-1/delay/delay+1 ms, several requests between updates, event groups, custom latencies, async placement) on the real FlumineSimulation vs. the model, evaluated in Coq; independent checker of effect time / clock / timestamps.",
         note="Trusted: Coq kernel + vm_compute; gen_consts.py (delay table from real BaseOrderPackage objects); simlib.py; custom latencies are compared away from float-boundary cases only. Print Assumptions: closed under the global context.",
